@@ -7,6 +7,12 @@ Oracle (real library only).  A case is a small document (<= 6 lines quick) of on
                   (other-version S syntax, L/C/P resp. E/F/G/O/U on a segment of the document, H VN of the other
                   version)
   oddvn           a document with a VN header whose value gfapy does not know
+  custom          a GFA2 document in which custom records carry the weight (gen_custom_doc): record types of several
+                  characters, most of them beginning with the code of a GFA1-only record (LN, CL, Pth, LC, P2, ...) or
+                  with H / S (Hx, S1, SEG; _docgen.CUSTOM_RT_WIDE); 60% `bare` - nothing but custom records, H lines
+                  without VN and comments, so that nothing tells the version before the queue is processed at the
+                  end - the others with segments (mostly no VN), the custom records waiting in the queue when they
+                  come first; version parameter None or "gfa2"
   rgfa            a document obeying the rules of the rGFA dialect (S with SN:Z SO:i SR:i, links 0M, no H/C/P),
                   written in GFA1 syntax (valid rGFA) or, the same content, in GFA2 syntax (gen_rgfa_doc)
 together with a `version` parameter in {None, "gfa1", "gfa2"}, a `dialect` parameter (None = not passed, or
@@ -20,7 +26,9 @@ from_file (the dialect is passed to all three entry points).  Independent classi
 GFA1-only = S with 2 positional fields, L, C, P, H with VN:Z:1.0; GFA2-only = S with 3 positional fields, E, F, G, O,
 U, H with VN:Z:2.0; neutral = other H, comments.
 Required versions R = versions of the version-specific lines + the explicit parameter + gfa1 if dialect="rgfa"
-(the dialect is a dialect of GFA1).
+(the dialect is a dialect of GFA1) + gfa2 if the document has a custom record (any record type which is not a
+predefined code, whatever its first character) and nothing speaks for GFA1: custom records exist in GFA2 only, so
+a document of custom records alone is valid in GFA2 and in no other version (which is also the documented default).
 
 Checked at level >= 1:
   * the outcome (version string, or exception class) is the same for every order and entry point;
@@ -56,7 +64,9 @@ from harness.props import _docgen as D
 
 ID = "C13"
 RULE = ("documents of 1-6 lines: pure GFA1, pure GFA2, neutral (H without VN, comments), mixed (valid document + 1-2 "
-        "lines of the other version, or a contradicting VN header), rGFA-conforming content in GFA1 or GFA2 syntax; "
+        "lines of the other version, or a contradicting VN header), rGFA-conforming content in GFA1 or GFA2 syntax, "
+        "GFA2 documents of custom records with record types of several characters (beginning with L/C/P/H/S or not), "
+        "60% of them without any version-specific line (expected: accepted as gfa2, every record once); "
         "optionally one identifier-less line (C, F, *-named E/G/O/U, custom record, comment) repeated 2-3 times; every "
         "order of the lines as a list, sampled orders as string and file; x version parameter in {None, gfa1, gfa2} x "
         "dialect in {not given, rgfa} x validation level 0..3. Non-trivial: >= 2 lines and at least one "
